@@ -417,7 +417,7 @@ func (c *C6Case) Ref() (obs []int64, ok bool) {
 
 // ---------------------------------------------------------------- Coq terms
 
-func coqZ(v int64) string {
+func c06CoqZ(v int64) string {
 	if v < 0 {
 		return fmt.Sprintf("(%d)%%Z", v)
 	}
@@ -425,17 +425,17 @@ func coqZ(v int64) string {
 }
 
 func (s C6Stage) coqSP(sw bool, seed int64) string {
-	return fmt.Sprintf("(mkSP %s %s %s %s %s %s %s %d%%N %s %s %s %s)", coqZ(s.A), coqZ(s.B), coqZ(s.A2), coqZ(s.B2), coqZ(s.K), coqZ(s.Fail),
-		CoqBool(sw), seed, coqZ(s.OLen), CoqBool(s.ONum), coqZ(s.OA), coqZ(s.OB))
+	return fmt.Sprintf("(mkSP %s %s %s %s %s %s %s %d%%N %s %s %s %s)", c06CoqZ(s.A), c06CoqZ(s.B), c06CoqZ(s.A2), c06CoqZ(s.B2), c06CoqZ(s.K), c06CoqZ(s.Fail),
+		CoqBool(sw), seed, c06CoqZ(s.OLen), CoqBool(s.ONum), c06CoqZ(s.OA), c06CoqZ(s.OB))
 }
 
-func coqObs(obs []int64, ok bool) string {
+func c06CoqObs(obs []int64, ok bool) string {
 	if !ok {
 		return "None"
 	}
 	xs := make([]string, len(obs))
 	for i, v := range obs {
-		xs[i] = coqZ(v)
+		xs[i] = c06CoqZ(v)
 	}
 	return "(Some " + CoqList(xs) + ")"
 }
@@ -445,7 +445,7 @@ func (c *C6Case) coq(id int, ncpu int, switched map[int]bool, obs []int64, ok bo
 	for i, s := range c.Stages {
 		st = append(st, fmt.Sprintf("(K%s, %s)", c6Coq(s.Kind), s.coqSP(switched[s.ID], c.Seed+int64(i))))
 	}
-	return fmt.Sprintf("(%d%%N, (%d%%N, %s, %s, T%s, %s), %s)", id, ncpu, coqZ(c.N), CoqList(st), c6Coq(c.Term.Kind), c.Term.coqSP(false, 0), coqObs(obs, ok))
+	return fmt.Sprintf("(%d%%N, (%d%%N, %s, %s, T%s, %s), %s)", id, ncpu, c06CoqZ(c.N), CoqList(st), c6Coq(c.Term.Kind), c.Term.coqSP(false, 0), c06CoqObs(obs, ok))
 }
 
 // ---------------------------------------------------------------- worker
